@@ -9,6 +9,15 @@ id=$1; prop=$2; src=$3; shift 3; others="$@"
 export GOFLAGS=-mod=mod GOPROXY=off GOSUMDB=off
 cd /verif
 wt=/tmp/confirm/$id
+res() { echo "$1=$2" >> /tmp/confirm/$id.res; }
+if [ -n "${SKIP_CONFIRM:-}" ] && [ -f seeded/$id/meta.json ]; then
+  # re-run of the checks only: keep the recorded confirmation
+  python3 -c "
+import json
+m=json.load(open('seeded/$id/meta.json'))
+open('/tmp/confirm/$id.res','w').write(''.join(f'{k}={v}\n' for k,v in m['confirmation'].items() if not k.startswith('check_')))"
+  src=/verif/seeded/$id
+else
 rm -rf $wt; git -C /repo worktree prune; git -C /repo worktree add -q --detach $wt HEAD || exit 2
 res() { echo "$1=$2" >> /tmp/confirm/$id.res; }
 rm -f /tmp/confirm/$id.res
@@ -27,6 +36,7 @@ cp $src/demo_test.go $wt/zz_demo_test.go
 ( cd $wt && go test -vet=off -count=1 -run '^TestDemo$' . >/tmp/confirm/$id.demo_with.txt 2>&1 ) && res demo_with_patch PASS || res demo_with_patch FAIL
 ( cd $wt && git checkout -q -- . && go test -vet=off -count=1 -run '^TestDemo$' . >/tmp/confirm/$id.demo_without.txt 2>&1 ) && res demo_without_patch PASS || res demo_without_patch FAIL
 git -C /repo worktree remove --force $wt
+fi
 # ---- run the checks against it
 if ! git -C /repo diff --quiet; then echo "/repo dirty"; exit 2; fi
 rm -rf build/evidence.keep && cp -r evidence build/evidence.keep
@@ -49,7 +59,7 @@ done
 git -C /repo checkout -- .
 rm -rf evidence && cp -r build/evidence.keep evidence
 mkdir -p seeded/$id
-cp $src/patch.diff seeded/$id/patch.diff; cp $src/demo_test.go seeded/$id/demo_test.go; cp $src/notes.md seeded/$id/notes.md 2>/dev/null
+[ "$src" != "/verif/seeded/$id" ] && { cp $src/patch.diff seeded/$id/patch.diff; cp $src/demo_test.go seeded/$id/demo_test.go; cp $src/notes.md seeded/$id/notes.md 2>/dev/null; }
 python3 - <<PY
 import json
 r=dict(l.strip().split('=',1) for l in open('/tmp/confirm/$id.res'))
